@@ -19,8 +19,11 @@
 //     been computed yet: that would warm it.
 //  2. solo baselines (each observer alone on a fresh error), and comparison of
 //     every cold-phase result against them.
-//  3. WARM rounds: fresh shared standard shapes, all goroutines looping over
-//     all observers.
+//  3. rounds: every round builds brand-new shared objects for all standard
+//     shapes and releases all goroutines on them at once (start gate per
+//     round), each goroutine with its own rotation of the observers: state
+//     that is lazily initialised per error VALUE is cold in every round.
+//     Reference results come from twin objects, never from a shared one.
 //
 // The goroutines share no harness state while they run (results go to
 // per-goroutine slices): harness synchronisation would add happens-before
@@ -60,9 +63,9 @@ func main() {
 	if len(os.Args) > 1 {
 		tier = os.Args[1]
 	}
-	rounds, iters := 1, 30
+	rounds, iters := 6, 5
 	if tier == "thorough" {
-		rounds, iters = 1, 125
+		rounds, iters = 25, 5
 	}
 	if len(os.Args) > 3 {
 		rounds, _ = strconv.Atoi(os.Args[2])
@@ -140,45 +143,57 @@ func main() {
 	}
 	cold = nil
 
-	// ---- 3. warm rounds on the standard shapes.
-	for _, sh := range driver.Shapes {
-		want := solo[sh]
-		for round := 0; round < rounds; round++ {
-			// a fresh shared error per round: per-object lazily
-			// initialised state starts cold in every round.
-			sharedErr := sh.Build()
-			start := make(chan struct{})
-			bad := make([][]struct {
-				oi  int
-				got result
-			}, goroutines)
-			for g := 0; g < goroutines; g++ {
-				wg.Add(1)
-				go func(g int) {
-					defer wg.Done()
-					<-start
-					for it := 0; it < iters; it++ {
-						for k := 0; k < nobs; k++ {
+	// ---- 3. rounds on the standard shapes. Every round builds brand-new
+	// shared objects for ALL shapes (nothing has looked at them: reference
+	// results come from the twins of phase 2) and releases all goroutines on
+	// them at once, so that per-object lazily initialised state is first
+	// touched concurrently in every round.
+	type badResult struct {
+		si, oi int
+		got    result
+	}
+	std := driver.Shapes
+	ns := len(std)
+	for round := 0; round < rounds; round++ {
+		objs := make([]error, ns)
+		for i, sh := range std {
+			objs[i] = sh.Build()
+		}
+		start := make(chan struct{})
+		bad := make([][]badResult, goroutines)
+		for g := 0; g < goroutines; g++ {
+			wg.Add(1)
+			go func(g int) {
+				defer wg.Done()
+				<-start
+				for it := 0; it < iters; it++ {
+					for k := 0; k < ns; k++ {
+						// even rounds: all goroutines arrive at each fresh
+						// object together; odd rounds: each goroutine has
+						// its own rotation of the shapes.
+						si := k
+						if round%2 == 1 {
+							si = (k + g*ns/goroutines) % ns
+						}
+						want := solo[std[si]]
+						for j := 0; j < nobs; j++ {
 							// rotate so that different observers overlap.
-							oi := (k + g + it) % nobs
-							s, p := driver.Guard(driver.Observers[oi], sharedErr)
+							oi := (j + g + it) % nobs
+							s, p := driver.Guard(driver.Observers[oi], objs[si])
 							if s != want[oi] && len(bad[g]) < 100 {
-								bad[g] = append(bad[g], struct {
-									oi  int
-									got result
-								}{oi, result{s, p}})
+								bad[g] = append(bad[g], badResult{si, oi, result{s, p}})
 							}
 						}
 					}
-				}(g)
-			}
-			close(start)
-			wg.Wait()
-			sum.Calls += int64(goroutines * iters * nobs)
-			for g := range bad {
-				for _, b := range bad[g] {
-					note(sh, driver.Observers[b.oi], b.got, want[b.oi])
 				}
+			}(g)
+		}
+		close(start)
+		wg.Wait()
+		sum.Calls += int64(goroutines * iters * ns * nobs)
+		for g := range bad {
+			for _, b := range bad[g] {
+				note(std[b.si], driver.Observers[b.oi], b.got, solo[std[b.si]][b.oi])
 			}
 		}
 	}
